@@ -336,10 +336,17 @@ class AsyncServer(base_server.BaseServer):
                 self._log_error_once(f'Invalid session {sid}', 'bad-sid')
                 r = self._bad_request(f'Invalid session {sid}')
             else:
-                socket = self._get_socket(sid)
                 try:
-                    await socket.handle_post_request(environ)
-                    r = self._ok(jsonp_index=jsonp_index)
+                    socket = self._get_socket(sid)
+                except KeyError as e:  # pragma: no cover
+                    # the session was closed but is still in the table
+                    self._log_error_once(f'{e} {sid}', 'bad-sid')
+                    r = self._bad_request(f'{e} {sid}')
+                    socket = None
+                try:
+                    if socket:
+                        await socket.handle_post_request(environ)
+                        r = self._ok(jsonp_index=jsonp_index)
                 except exceptions.EngineIOError:
                     if sid in self.sockets:  # pragma: no cover
                         await self.disconnect(sid)
